@@ -59,8 +59,10 @@ Definition has_direct (ss : list ssel) (n : string) : bool :=
 Definition frag_has (ss : list ssel) (t n : string) : bool :=
   existsb (fun s => match s with SanFrag c _ _ sub => (c =? t) && contains sub n | SanField _ _ _ _ _ => false end) ss.
 
-(* addScrubFieldsToSelectionSet(ctx, selectionSet, typename) -> selection set, names of the fields it added *)
-Definition add_scrub_fields (tm : tmap) (sc : sschema) (ss : list ssel) (t : string) : list ssel * list string :=
+(* addScrubFieldsToSelectionSet(ctx, selectionSet, typename, isFragment) -> selection set, names of the fields it added *)
+Definition has_own_fields (ss : list ssel) : bool :=
+  existsb (fun s => match s with SanField _ n _ _ _ => negb (n =? "__typename") | SanFrag _ _ _ _ => false end) ss.
+Definition add_scrub_fields (tm : tmap) (sc : sschema) (ss : list ssel) (t : string) (is_frag : bool) : list ssel * list string :=
   let abstract := match kind_of sc t with KOther => false | _ => true end in
   let '(ss1, added1) :=
     (* since fix: a __typename inside a fragment covers that fragment's type only, so only one selected on this level counts *)
@@ -73,7 +75,9 @@ Definition add_scrub_fields (tm : tmap) (sc : sschema) (ss : list ssel) (t : str
       end
     else match tm_is_node tm t with Some true => true | _ => false end in
   if negb is_node then (ss1, added1)
-  else if contains ss1 "id" then (ss1, added1)
+  (* since the fix: an id inside a fragment covers that fragment's type only — not the interface's own fields, nor a
+     fragment on the abstract type, which is written out for every type *)
+  else if (if abstract && (is_frag || has_own_fields ss1) then has_direct ss1 "id" else contains ss1 "id") then (ss1, added1)
   else (id_helper :: ss1, added1 ++ ["id"]).
 
 (* addSelectionSetToSanitizedResult: a field whose response key (Alias) is already among the fields of s is dropped *)
@@ -83,6 +87,23 @@ Definition add_to_result (s : list ssel) (new : list ssel) : list ssel :=
                         | None => true
                         | Some a => negb (existsb (fun e => match alias_of e with Some a' => a' =? a | None => false end) s)
                         end) new.
+
+(* narrowSelectionSetToType: what of a selection set applies to the objects of one object type — a fragment on that
+   type is unfolded, fragments on other object types are left out (those with directives, on abstract types or without
+   a type condition stay). Type conditions of a validated operation name object, interface or union types: what the
+   schema facts do not list as abstract is an object type *)
+Fixpoint narrow_sel (sc : sschema) (t : string) (s : ssel) {struct s} : list ssel :=
+  match s with
+  | SanField _ _ _ _ _ => [s]
+  | SanFrag c _ d sub =>
+      if negb (Nat.eqb d 0) then [s]
+      else if c =? t then
+        (fix go (l : list ssel) (acc : list ssel) := match l with [] => acc | x :: r => go r (add_to_result acc (narrow_sel sc t x)) end) sub []
+      else if (c =? "") then [s]
+      else match kind_of sc c with KOther => [] | _ => [s] end
+  end.
+Definition narrow_to_type (sc : sschema) (ss : list ssel) (t : string) : list ssel :=
+  fold_left (fun acc s => add_to_result acc (narrow_sel sc t s)) ss [].
 
 (* sanitizeUnionInlineFragment(ctx, sanitized children, fragment) *)
 Definition sanitize_union (children : list ssel) (cond odef : string) (dirs : nat) : list ssel :=
@@ -104,7 +125,7 @@ Definition sanitize_iface (sc : sschema) (children : list ssel) (cond odef : str
        the other objects of the interface (since the fix; before, they were hoisted to the level of the interface) *)
     let partial := (match kind_of sc cond with KOther => false | _ => true end) && negb (cond =? odef) in
     let pts' := if partial then filter (fun pt => smem pt (possible_of sc cond)) pts else pts in
-    fold_left (fun acc pt => add_to_result acc [SanFrag pt pt dirs children]) pts' (if partial then [] else children).
+    fold_left (fun acc pt => add_to_result acc [SanFrag pt pt dirs (narrow_to_type sc children pt)]) pts' (if partial then [] else children).
 
 Definition other_abstract (sc : sschema) (cond odef : string) : bool :=
   (match kind_of sc cond with KOther => false | _ => true end) && negb (cond =? odef).
@@ -178,7 +199,7 @@ Fixpoint san_sel (tm : tmap) (sc : sschema) (ip : list string) (s : ssel) (acc :
               sub ([], []) in
           let sf := unset_level sub (ip ++ [a]) sf in
           let scr1 := sc_merge scr sf in
-          let '(child', added) := add_scrub_fields tm sc child ty in
+          let '(child', added) := add_scrub_fields tm sc child ty false in
           let scr2 := set_missing sc ip a ty child' scr1 added in
           (* since the fix: what the client selects himself through a fragment stays for the objects it applies to,
              whichever fragment added it as a helper too *)
@@ -190,7 +211,7 @@ Fixpoint san_sel (tm : tmap) (sc : sschema) (ip : list string) (s : ssel) (acc :
           sub ([], []) in
       let sf := unset_level sub ip sf in
       let scr1 := sc_merge scr sf in
-      let '(child', added) := add_scrub_fields tm sc child c in
+      let '(child', added) := add_scrub_fields tm sc child c true in
       (* helpers added for an abstract type condition are registered for every type an object can have (since the fix:
          before, under the condition's own name, which no object carries) *)
       let scr2 := set_frag sc ip c scr1 added in
@@ -200,7 +221,9 @@ Fixpoint san_sel (tm : tmap) (sc : sschema) (ip : list string) (s : ssel) (acc :
           (* since the fix: a fragment on another abstract type inside a union is written out for the member types it
              applies to, like inside an interface (the service of the union need not know that type) *)
           (add_to_result result (if other_abstract sc c o then sanitize_iface sc child' c o fd else sanitize_union child' c o fd), scr2)
-      | KOther => (add_to_result result child', scr2)
+      | KOther =>
+          (* since the fix: unfolded into the selection of an object type, fragments on other object types go *)
+          (add_to_result result (narrow_to_type sc child' o), scr2)
       end
   end.
 
